@@ -16,6 +16,26 @@ CLAIMS = {
   text="Corollary layer of the C02 development (value printing and exit status coincide; the native model with left-to-right argument evaluation IS the reference semantics, proved by mutual induction on fuel) plus a model-independent oracle: both REAL backends are run on the witness of every recorded finding, on generated CoreS programs in prefix/infix/mixed spelling and on the repository's own example and test programs (CoreX: structs, enums, unions, tuples, arrays, strings, imports); stdout bytes and exit status must be identical.",
   note="Theorems cover CoreS; CoreX and imports by correspondence only. Programs that use the environment/FFI or print floats are outside the property and skipped. Open findings: native argument order, three native C-compile failures, five repo programs (STRUCT_GET on the VM, a failing string assertion, C-implemented module functions).",
   technique="Coq corollaries of the engine simulation + direct differential of the two real backends", design="DESIGN.md 5/C01"),
+ 'C04': dict(
+  text="wt_sound: a program accepted by the reference type checker wt (Lang/Types.v: operand/argument types, arity, block scoping, immutability, return on every path, bool conditions) never reaches Stuck in the reference semantics, for every fuel (proved with an environment-typing invariant incl. calls and recursion); with Agree and the VM simulation this transfers to both engine models (native model never Stuck/cc-refused; VmCompile resolves every name).  The statement about the REAL acceptance predicate is correspondence: two-sided agreement wt <=> typechecker.c on generated programs and on all catalogue mutants, and every program the real checker accepts is pushed through both real backends and must not end in an internal failure class.",
+  note="Theorems are about Types.wt; typechecker.c (6.2k lines) is tied by correspondence and currently diverges on 28 recorded places (open findings keyed by minimal program: operand types printed but not enforced, scopes never popped, no return-path analysis, ...). Codegen theorem is _partial (names resolve; no encoding/verifier).",
+  technique="Coq type-soundness proof against the executable reference semantics + two-sided acceptance correspondence with the real checker and both backends", design="DESIGN.md 5/C04"),
+ 'C05': dict(
+  text="mut_ill_typed: each of the 15 catalogue rules (wrong operand/argument type, arity +-1, unknown name/function, local of an earlier function, name used after its block, set on immutable let / parameter / loop variable, missing return on one path, wrong return type, return without value, non-bool condition) applied at ANY position of ANY program yields a program the reference checker refuses (so the oracle never raises a false alarm); driver_stops: for nanoc, nano_virt --run and --emit-nvm a failed type check means exit != 0, a diagnostic, no artifact, nothing executed (phase table regenerated from the clang AST of both mains); all_error_sites_flagged over the 183 diagnostic sites of typechecker.c regenerated per run, minus a committed triage table.  Every generated mutant is run on the three real tools.",
+  note="The real checker accepts most ill-typed mutants today: 18 open findings keyed by diagnostic call site / minimal program (check_expression has no access to the TypeChecker, so its diagnostics cannot fail the compilation). Field/variant/resource/unsafe rules only through witness programs. The site analysis is a syntactic trusted translator. The proposed repair (count context errors) is NOT applied: it would refuse tests/test_std_regex_groups_uaf.nano, which gets a false TYPE MISMATCH on (== re (null_opaque)).",
+  technique="Coq proof (mutation catalogue ill-typed, driver phase machine) + generated diagnostic-site table + mutation differential on the three tools", design="DESIGN.md 5/C05"),
+ 'C07': dict(
+  text="Token->AST model of parse_expression / parse_primary / parse_prefix_op (depth counter, postfix and argument loops, uppercase-identifier lookahead). Proved: prefix round trip for all trees up to the nesting limit, infix round trip for every tree except one remaining shape (a parenthesised group beginning with a unary operator), left associativity for all 13x13 operator pairs, postfix binds tighter on both sides, unary applies to the following operand, depth limit reported. The model is compared with the real lexer+parser on all operator pairs x operand shapes, random trees and token mutants (18k cases quick); bytecode of both spellings compared via nano_virt --emit-nvm.",
+  note="One open finding (language decision): 2 * (-a + 1) parses as 2 * -(a+1). Bytecode identity of the two spellings by correspondence only. Trusted: gen_tokens/gen_parserconsts, front_probe.c, the text renderer (re-checked by the real lexer on every case).",
+  technique="Coq proof over an executable parser model + extracted-model/real-parser correspondence", design="DESIGN.md 5/C07"),
+ 'C08': dict(
+  text="For every index idx : Z (not a sweep) and every length, each engine's array access function (VM ARR_GET/SET/REMOVE/POP with the 64-bit range test before narrowing; native dyn_array asserts; interpreter builtins) traps outside [0, length) and touches only the object inside it; a trap is final (no value, non-zero exit); tuple/struct/union field indices likewise. The engine functions are parametrised by a configuration regenerated from the current source; 764 generated programs (3 engines x access kinds x lengths x boundary indices incl. 2^32+k, INT64_MIN, -(2^32-2)) compare marker output and exit status with the model.",
+  note="VM state machine shared with C13 (no refcounts, no C stack). All nine defects found on the pinned tree are repaired (fix: commits) and recorded.",
+  technique="Coq proof over cfg-parametrised executable bounds/VM model + source-derived cfg + three-engine correspondence", design="DESIGN.md 5/C08"),
+ 'C09': dict(
+  text="Generic Coq theorem: a cursor loop whose every iteration advances the token position or exits terminates within ntokens+2 iterations; ranks bound call chains. Instantiated by computation on loop summaries and the call graph REGENERATED from parser.c's clang AST on every run: every loop of parser.c progresses, the unguarded call graph is acyclic, the depth limit is reported (no open loop/recursion finding left). Tokenizer model proved total and compared token for token. ASan/UBSan front_probe on token/byte mutants, truncations at every token boundary and nesting ladders up to 1e5; every input must end in acceptance or a diagnostic.",
+  note="Loops and recursion structure only: the parser as a whole, the type checker and import processing are not modelled (sanitizer runs only). The loop-summary translator's rule set is trusted (self-tested on 22 hand-made loops per run).",
+  technique="Coq generic termination theorem + generated loop/call-graph summaries + lexer model + sanitizer correspondence", design="DESIGN.md 5/C09"),
  'C10': dict(
   text="deserialize(serialize m) = stamp m field-wise and serialisation idempotence for all well-formed modules, the API keeps the string pool duplicate-free; exit-status model of the runners (nano_virt --run, nano_vm, native wrapper) with agreement proved from two AST-derived facts regenerated per run; 1500+ modules built through the real API byte-compared with the model, compiled programs run under all runners.",
   note="Wrapper embedding and output equality are end-to-end only; daemon runner only in the model.",
@@ -28,6 +48,14 @@ CLAIMS = {
   text="Inv (interning table sound; for every live object ref_count >= in-degree from operand stack incl. locals, globals, frame closures and live containers; every reference targets a live object) holds initially and is preserved by every modelled VM opcode from ANY state satisfying it (arbitrary bytecode) and hence by runs; no use-after-free, no double free (ids never reused); the recursive release is a DFS worklist proved with the pending-multiset invariant; exactness (rc = in-degree) and no-leak for leak-free runs. The extracted model replays the real VM's logged instruction stream and must agree on live set, tags, ref_counts and in-degrees at EVERY instruction boundary (~1e5 boundaries per quick run); an independent C-side audit recomputes in-degrees after every instruction (1/4 of the runs under ASan).",
   note="Churn bound is partial (vm_compute on regenerated real instruction streams, not forall k). Hashmap opcodes, element-wise array arithmetic and non-string FFI results are audited on the real VM only. The instruction stream (control flow, indices) is an input of the model run. C recursion depth of vm_release belongs to C13.",
   technique="Coq proof (micro-op ownership model, release worklist) + extracted-model replay of real traces + implementation-side audit probe", design="DESIGN.md 5/C14, App. A.2"),
+ 'C15': dict(
+  text="deser(ser v ++ rest) = (v, |ser v|) for every transferable value (int/float/opaque bit patterns, bool, strings of any content, void, arrays nested up to the decoder's limit), the request/reply builders fit every payload up to COP_MAX_PAYLOAD, hence call through the co-process = call in process for any callee (call_transparent); the decoder never reads out of bounds on arbitrary bytes. Constants are regenerated from cop_protocol.h and the clang AST of vm_ffi_call_cop / handle_ffi_req. cop_probe (ASan + plain) vs the extracted model on boundary values, truncations and mutated length fields; real programs run with nano_vm and nano_vm --isolate-ffi.",
+  note="The callee (vm_ffi_call) is the same code on both paths and is not modelled; allocation success and C stack depth assumed. Open findings: externs that write to stdout lose their output through the co-process; payloads above COP_MAX_PAYLOAD (16 MiB) are refused.",
+  technique="Coq codec round-trip / transparency proof + generated constants + probe and end-to-end correspondence", design="DESIGN.md 5/C15"),
+ 'C16': dict(
+  text="Client state machine of cop start/call/stop over explicit OS rules (EPIPE when SIGPIPE ignored, EOF, waitpid) and ARBITRARY peer scripts: every call ends in Ok / fallback / Err in a well-formed state (or a characterised hang on a silent peer), after stop the child is reaped (no orphan), a whole nano_vm run never ends in a signal or crash; SIGPIPE disposition is translated from the clang AST and cross-checked against /proc/<pid>/status. Exhaustive fault matrix of the real nano_vm against a scripted stand-in nano_cop: 15 fault kinds x protocol steps x k <= 2 (128 cells quick, 224 thorough) compared with the extracted model.",
+  note="OS pipe/process rules are the model's stated assumptions; a peer that blocks SIGTERM or stays silent forever with its pipe open is excluded. All eight defects found on the pinned tree are repaired and recorded.",
+  technique="Coq containment/no-orphan proof over a client state machine + generated signal facts + exhaustive fault matrix", design="DESIGN.md 5/C16"),
  'C17': dict(
   text="Under every schedule a session's final state and reply equal its run alone (interleaving theorem over footprints), the lazily initialised CRC table is race free under sequential consistency, every session-reachable writable global (nm/relocation inventory regenerated per run) is classified, and the client's view of the reply equals the standalone observation; live daemon with up to 16 (quick) / 64 (thorough) concurrent clients, TSan/ASan builds.",
   note="Sequential consistency only; footprint classes asserted by reading and tested; scheduler not modelled; VM run is an oracle shared by both sides; FFI sessions excluded.",
